@@ -146,6 +146,8 @@ func (v *Verifier) loadGlobal(s *State, o *types.Var) *Term {
 		if init := v.eng.globalInit(o); init != nil && s.epoch == 0 {
 			if val := v.evalTable(o, init); val != nil {
 				s.assume(Eq(h, val))
+			} else {
+				v.evalMapTable(s, o, init, h)
 			}
 		}
 		s.assume(v.typeFacts(s, h, o.Type()))
@@ -375,7 +377,7 @@ func (v *Verifier) evalIndex(s *State, x *ast.IndexExpr) *Term {
 		v.oblige(s, "nopanic", "index", And(Le(IntLit(0), i), Lt(i, IntLit(at.Len()))), x.Pos(), "array index in range")
 		s.assume(And(Le(IntLit(0), i), Lt(i, IntLit(at.Len()))))
 		_, h, _ := v.sliceHeap(s, at.Elem())
-		val := Select(Select(h, p), i)
+		val := Select(v.hsel(s, h, p), i)
 		v.noteRead(s, val, at.Elem())
 		return val
 	case *types.Map:
@@ -1002,7 +1004,7 @@ func (v *Verifier) bytesToStr(s *State, sl *Term) *Term {
 	es := v.byteSort()
 	name := v.sliceHeapName(es)
 	h := v.getHeap(s, name, v.sliceHeapSort(es))
-	w := v.window(s, Select(h, SBase(sl)), SOff(sl), SLen(sl))
+	w := v.window(s, v.hsel(s, h, SBase(sl)), SOff(sl), SLen(sl))
 	v.d.declareFun("str.of", []string{SArr(SInt, es), SInt}, SStr)
 	r := mk("str.of", SStr, w, SLen(sl))
 	s.assume(Eq(v.strLen(r), SLen(sl)))
@@ -1024,6 +1026,7 @@ func (v *Verifier) window(s *State, arr, off, n *Term) *Term {
 			}
 		}
 		s.pc = append(s.pc, w.axiom)
+		s.pc = append(s.pc, w.lemmas...)
 		return w.c
 	}
 	_, es, _ := arrSorts(arr.Sort)
@@ -1039,14 +1042,42 @@ func (v *Verifier) window(s *State, arr, off, n *Term) *Term {
 	}
 	in := And(Le(IntLit(0), i), Lt(i, n))
 	ax := Forall([]*Term{i}, Eq(Select(w, i), Ite(in, Select(arr, Add(off, i)), zero)), mk("select", es, w, i))
-	v.windows[key] = &winInfo{w, ax}
+	wi := &winInfo{c: w, axiom: ax, kind: "win|" + n.String()}
+	v.windows[key] = wi
 	s.pc = append(s.pc, ax)
+	v.extLemmas(s, wi)
 	return w
 }
 
 type winInfo struct {
-	c     *Term
-	axiom *Term
+	c      *Term
+	axiom  *Term
+	lemmas []*Term
+	kind   string // windows of the same length / concatenations of the same length are paired
+}
+
+// extLemmas adds, for the new defined array x and every earlier defined array y
+// of the same sort, the extensionality instance  x = y  or  x[k] != y[k]  (k fresh).
+// It is a tautology of the array theory; its purpose is to put the ground terms
+// x[k], y[k] into the solver's E-graph so that the defining axioms fire.
+func (v *Verifier) extLemmas(s *State, x *winInfo) {
+	if v.inQuant > 0 {
+		return
+	}
+	for _, y := range v.defArrays {
+		if y.c.Sort != x.c.Sort || y.kind != x.kind {
+			continue
+		}
+		k := v.fresh("xk", SInt)
+		lm := Or(Eq(x.c, y.c), Neq(Select(x.c, k), Select(y.c, k)))
+		x.lemmas = append(x.lemmas, lm)
+		y.lemmas = append(y.lemmas, lm)
+		s.pc = append(s.pc, lm)
+	}
+	v.defArrays = append(v.defArrays, x)
+	if len(v.defArrays) > 60 {
+		v.defArrays = v.defArrays[1:]
+	}
 }
 
 // toIface boxes a concrete value into an interface value.
@@ -1189,8 +1220,11 @@ func (v *Verifier) evalTo(s *State, e ast.Expr, to types.Type) *Term {
 			return v.addrOf(s, cl)
 		}
 	}
-	x := v.eval(s, e)
 	from := v.typeOf(e)
+	if b, ok := from.(*types.Basic); ok && b.Kind() == types.UntypedNil && to != nil {
+		return v.zeroOf(to)
+	}
+	x := v.eval(s, e)
 	return v.coerce(s, x, from, to)
 }
 
